@@ -125,6 +125,22 @@ def run(tier, seed):
                 q["id"] = "weakflags-%s-%d" % (name, j)
                 q["srv"]["ntlm_flags"] = 0xE28A8235 & ~clear
                 plans.append(q)
+        # the flag byte of the server's negotiation response is the server's business (extended client data, restricted
+        # admin supported, ...): whatever it says, the mode table is the client's configuration
+        adm = [p for p in conn.last_mode_plans if p["cfg"]["admin"] and p["cfg"]["nla"] and p["srv"]["reply"]["sel"][0] == 2][:4] + \
+              [p for p in conn.last_mode_plans if p["cfg"]["blank"] and not p["cfg"]["admin"] and p["cfg"]["nla"] and p["srv"]["reply"]["sel"][0] == 2][:2] + \
+              [p for p in conn.last_mode_plans if p["cfg"]["admin"] and p["srv"]["reply"]["sel"][0] == 1][:2]
+        for j, first in enumerate(adm):
+            for fl in (0x01, 0x07, 0x08, 0x0f, 0x17, 0x1f, 0xf7, 0xff):
+                q = json.loads(json.dumps(first)); q["id"] = "rspflags-%d-%d" % (j, fl); q["srv"]["reply"]["flags"] = fl
+                plans.append(q)
+        # account names in user-principal form (with and without a domain) in every mode
+        for j, first in enumerate([p for p in conn.last_mode_plans if p["srv"]["reply"]["sel"][0] == (2 if p["cfg"]["nla"] else 1)][::3][:32]):
+            q = json.loads(json.dumps(first)); q["id"] = "upn-%d" % j
+            q["cfg"]["user"] = [97, 108, 64, 99, 111, 46, 101, 120]
+            if j % 2: q["cfg"]["domain"] = [68, 79, 77]
+            q["srv"]["account"] = {"domain": q["cfg"]["domain"], "user": q["cfg"]["user"], "password": q["cfg"]["password"]}
+            plans.append(q)
         for first in ssl_plans[:2]:
             again(first, {"nla": True}, tag="-nla-on")
             again(first, {"nla": True, "hash": True}, tag="-nla-hash")
